@@ -12,6 +12,7 @@ import (
 	"sort"
 	"strconv"
 	"strings"
+	"time"
 
 	"golang.org/x/tools/go/ssa"
 
@@ -458,6 +459,7 @@ func CheckC12(c *Ctx) {
 	c.workersPositive("cmd/indicator-sync", "sync/command")
 	c.factoryPurity("asset", "NewRepository", "sync/factory") // source and target of the command come from it
 	c.assetNameCodec()                                        // asset lists taken from a file-system target
+	c.tiingoStartDate()
 	fi := c.fn("asset", "Sync", "Run")
 	if fi == nil {
 		return
@@ -1257,6 +1259,8 @@ func CheckC13(c *Ctx) {
 		c.violate("backtest/write-once", site+".worker", fmt.Sprintf("writes=%d", writes), stratLoop.Pos(), "every (asset, strategy) pair must be written exactly once with the outputs of ComputeWithOutcome of that strategy on a fresh copy of the asset's snapshots")
 	}
 	c.errorOrientation("backtest/error-orientation", "backtest")
+	c.errorsLookedAt("backtest/error-dropped", map[string]string{}, "backtest")
+	c.errorFallThrough("backtest/error-fallthrough", "backtest")
 	c.lockPairing("backtest/lock", "backtest")
 	run.Floor("lock_sites", 5)
 	c.workerLoop("backtest/jobs", site+".Run", info, runFi.Decl)
@@ -1264,6 +1268,7 @@ func CheckC13(c *Ctx) {
 	c.defaultWhenEmpty("backtest/protocol", site+".Run", info, runFi.Decl, "Names")
 	c.writeArguments(wFi, site)
 	c.resultFields()
+	c.checkStepSpecs([]stepSpec{countTransactionsSpec})
 	// races
 	n := c.sharedWritesAtGo(runFi, "backtest")
 	run.Count("worker_go_sites", n)
@@ -1605,8 +1610,23 @@ func (c *Ctx) rankingOrder() {
 				return true
 			}
 			stack = append(stack, q)
+			if _, isLit := q.(*ast.FuncLit); isLit && q.Pos() < call.Pos() {
+				stack = stack[:len(stack)-1]
+				return false // evaluated when it is called
+			}
 			ix, isIx := q.(*ast.IndexExpr)
-			if !isIx || ix.Pos() < call.End() || exprString(ix.X) != sorted {
+			if !isIx || exprString(ix.X) != sorted {
+				return true
+			}
+			if ix.Pos() < call.End() {
+				// an entry taken by a constant position before the slice was sorted (the arguments
+				// of a defer statement are evaluated where the statement stands)
+				if ix.Pos() < call.Pos() {
+					if _, isC := constInt(info, ix.Index); isC {
+						run.Oblige(false)
+						c.violate("backtest/ranking", site, "early pick "+exprString(ix), ix.Pos(), "the entry "+exprString(ix)+" is taken before "+sorted+" is sorted: it is whichever result was written first, not the one with the maximal outcome")
+					}
+				}
 				return true
 			}
 			for _, p := range stack {
@@ -3007,4 +3027,68 @@ func (c *Ctx) callersGuard(pk *packages.Package, fd *ast.FuncDecl, site indexSit
 		}
 	}
 	return calls > 0 && calls == guarded
+}
+
+// countTransactionsSpec: the number of transactions the HTML report prints counts every action
+// that is not Hold (the actions it is given are the raw recommendations).
+var countTransactionsSpec = stepSpec{Site: "strategy.CountTransactions", Callee: "Map", Rule: "backtest/result",
+	Params: []string{"action"}, State: []string{"transactions"},
+	Hint: map[string]string{"transactions": "transactions"},
+	Enum: map[string][]string{"action": {"Buy", "Hold", "Sell"}},
+	Updates: map[string]string{
+		"transactions": "ite(action != Hold, transactions + 1, transactions)",
+	},
+	Out: "ite(action != Hold, transactions + 1, transactions)",
+	Doc: "CountTransactions = the running number of actions other than Hold"}
+
+// tiingoStartDate: the source of a sync run is asked for "everything since the start date" (C12).
+// For the Tiingo repository that date travels as the startDate parameter of the request, which
+// the service reads as an ISO 8601 calendar date (year-month-day; frozen from the API's
+// documentation, as the comment of GetSince's URL states). Every layout with which GetSince (or
+// an unexported helper of it) formats a time.Time must therefore render 2023-11-28 as
+// "2023-11-28": a layout with day and month exchanged asks for another day, silently.
+func (c *Ctx) tiingoStartDate() {
+	run := c.Run
+	run.Explanation += " The start date reaches the Tiingo service through a layout that renders year-month-day."
+	fi := c.fn("asset", "TiingoRepository", "GetSince")
+	if fi == nil {
+		return
+	}
+	base := time.Date(2023, time.November, 28, 7, 14, 9, 0, time.UTC)
+	n := 0
+	for _, m := range c.family(fi) {
+		if m.Decl.Body == nil {
+			continue
+		}
+		info := m.Pkg.TypesInfo
+		ast.Inspect(m.Decl.Body, func(nd ast.Node) bool {
+			call, ok := nd.(*ast.CallExpr)
+			if !ok || len(call.Args) != 1 {
+				return true
+			}
+			sel, isSel := call.Fun.(*ast.SelectorExpr)
+			if !isSel || sel.Sel.Name != "Format" {
+				return true
+			}
+			t := info.TypeOf(sel.X)
+			if t == nil || t.String() != "time.Time" {
+				return true
+			}
+			n++
+			tv, has := info.Types[call.Args[0]]
+			good, got := false, "a layout that is not a constant"
+			if has && tv.Value != nil && tv.Value.Kind() == constant.String {
+				got = base.Format(constant.StringVal(tv.Value))
+				good = got == "2023-11-28"
+			}
+			run.Oblige(good)
+			if !good {
+				c.violate("sync/source-date", "asset.(*TiingoRepository).GetSince", "layout "+short(exprString(call.Args[0]), 30), call.Pos(),
+					fmt.Sprintf("the date asked of the service is formatted as %s for 2023-11-28: the startDate parameter is a year-month-day date, so the source is asked for another day than the one Sync computed", got))
+			}
+			return true
+		})
+	}
+	run.Count("tiingo_date_layouts", n)
+	run.Floor("tiingo_date_layouts", 1)
 }
